@@ -250,6 +250,9 @@ type PartSetReader struct {
 }
 
 func NewPartSetReader(parts []*Part) *PartSetReader {
+	if len(parts) == 0 {
+		return &PartSetReader{reader: bytes.NewReader(nil)}
+	}
 	return &PartSetReader{
 		i:      0,
 		parts:  parts,
